@@ -97,6 +97,10 @@ func (rs *runState) runC15Case(idx int, cs c15Case) *violationT {
 		{name: "alone", dir: "a", files: map[string]string{"s/m_target.go": target}},
 		{name: "among-files", dir: "b", files: map[string]string{"s/a_first.go": others[0], "s/m_target.go": target, "s/z_last.go": others[1]}},
 		{name: "among-packages", dir: "c-with-a-longer-directory-name", files: map[string]string{"s/a_first.go": others[1], "s/m_target.go": target, "s/asub/q.go": subpkg(others[0], "asub"), "s/zsub/q.go": subpkg(others[2%len(others)], "zsub")}},
+		// test files beside the target: with test loading the package is visited twice (p and p [p.test])
+		{name: "with-unrelated-in-package-test-file", dir: "f", files: map[string]string{"s/m_target.go": target, "s/util_test.go": "package s\n\nimport \"testing\"\n\nfunc TestNothing(t *testing.T) {}\n"}},
+		{name: "with-external-test-package-and-api-test-file", dir: "g", files: map[string]string{"s/m_target.go": target, "s/ext_test.go": "package s_test\n\nimport \"testing\"\n\nfunc TestExt(t *testing.T) {}\n",
+			"s/zz_api_test.go": others[1]}},
 		{name: "gomaxprocs-1", dir: "d", files: map[string]string{"s/m_target.go": target, "s/z_last.go": others[0]}, env: []string{"GOMAXPROCS=1"}},
 		{name: "stale-output-and-rerun", dir: "e", files: map[string]string{"s/m_target.go": target}, runs: 2, pre: func(dir string) {
 			// outputs of an earlier run of a DIFFERENT program are present on disk
@@ -203,7 +207,7 @@ func countStmts(p *Program, kinds ...string) int {
 func init() {
 	checks["C15"] = &checkT{run: func(rs *runState) {
 		rs.rule("a target file (6 programs of the range/delegation/scoping profiles: many sequential and nested range loops and function literals, so unique-name generation and comment attachment are exercised) " +
-			"compiled in production mode in 6 configurations: alone; among 2 other files sorting before/after; among other files and 2 sub-packages in a differently named directory; GOMAXPROCS=1; " +
+			"compiled in production mode in 8 configurations: alone; beside an unrelated in-package _test.go file; beside an external-test-package file and a _test.go file that uses the API; among 2 other files sorting before/after; among other files and 2 sub-packages in a differently named directory; GOMAXPROCS=1; " +
 			"with stale o/ and o_tmp/ content of a different program present, twice in a row; oracle: the bytes of the target's generated file are identical in all configurations, no helper identifier " +
 			"is defined twice in one function, the output builds; non-trivial = the target has >= 2 range loops in one program and the other files contain range loops; distinct by hash(target)")
 		n := rs.vol(16, 300)
@@ -256,7 +260,7 @@ func init() {
 				for _, p := range cs.Target {
 					h += progHash(p)
 				}
-				rs.eval(h, ranges >= 2 && otherRanges >= 1, "configurations:6")
+				rs.eval(h, ranges >= 2 && otherRanges >= 1, "configurations:8")
 				if i%7 == 0 {
 					src, _ := renderFile("S", "s", cs.Style, cs.Target[:1], nil)
 					rs.sample(map[string]any{"target_first_program": src, "other_files": len(cs.Others), "max_range_like_loops_in_one_program": ranges})
@@ -423,6 +427,13 @@ func (rs *runState) runC16Layout(idx int, lay c16Layout) *violationT {
 		files[pkgDir+"items_test.go"] = "package " + pkgName + "\n\nimport \"testing\"\n\nfunc TestItems(t *testing.T) {\n\tif got := SumItems(4); got != 12 {\n\t\tt.Fatalf(\"SumItems(4) = %d\", got)\n\t}\n}\n"
 		expected[pkgDir+"items.go"] = true
 	}
+	// a co file that is edited between two runs of the tool (see the regeneration step below); nothing refers to it
+	shrinkLong := coHeader("package " + pkgName + "\n\nimport . \"github.com/goghcrow/go-co\"\n\nfunc ShrinkA(n int) Iter[int] {\n\tfor i := 0; i < n; i++ {\n\t\tYield(i)\n\t\tif i%2 == 0 {\n\t\t\tYield(i * 2)\n\t\t}\n\t}\n\treturn nil\n}\n\n" +
+		"func ShrinkB(xs []string) Iter[string] {\n\tfor i, x := range xs {\n\t\tswitch {\n\t\tcase i == 0:\n\t\t\tYield(\"first:\" + x)\n\t\tcase len(x) > 3:\n\t\t\tYield(\"long:\" + x)\n\t\tdefault:\n\t\t\tYield(x)\n\t\t}\n\t}\n\tYieldFrom(ShrinkC(len(xs)))\n\treturn nil\n}\n\n" +
+		"func ShrinkC(n int) Iter[string] {\n\tfor n > 0 {\n\t\tn--\n\t\tYield(\"c\")\n\t}\n\treturn nil\n}\n")
+	shrinkShort := coHeader("package " + pkgName + "\n\nimport . \"github.com/goghcrow/go-co\"\n\nfunc ShrinkA(n int) Iter[int] {\n\tYield(n)\n\treturn nil\n}\n")
+	files[pkgDir+"shrink_co.go"] = shrinkLong
+	expected[pkgDir+"shrink.go"] = true
 	subDir := ""
 	if len(lay.SubPkg) > 0 {
 		subDir = pkgDir + "sub/"
@@ -492,12 +503,8 @@ func (rs *runState) runC16Layout(idx int, lay c16Layout) *violationT {
 		return &violationT{Kind: "layout", Signature: sig, What: what}
 	}
 	if r := run(); r != nil {
-		// a panic of the tool on a supported layout is an acceptance failure (C11's event); dropped here
-		rs.mu.Lock()
-		rs.dropped++
-		rs.casualties["cogen:"+normDiag(r.out)]++
-		rs.mu.Unlock()
-		return nil
+		// the layout is valid (it built with the co tag above): a tool that fails on it derives nothing
+		return mk("cogen-failed:"+normDiag(r.out), "cogen failed on a valid package layout (also C11's event): "+lastLines(r.out, 10))
 	}
 	after := snapshot(base)
 	var created, modified, removed []string
@@ -563,6 +570,39 @@ func (rs *runState) runC16Layout(idx int, lay c16Layout) *violationT {
 			return mk("not-idempotent", fmt.Sprintf("second cogen run removed %s", k))
 		}
 	}
+	// regeneration after an edit: a co file is replaced by a much shorter version and the tool runs again over the
+	// existing (longer) derived file; the result must be exactly what a generation without that stale file writes,
+	// and nothing else may change
+	secondRun = false
+	shrinkCo, shrinkGo := filepath.Join(root, pkgDir+"shrink_co.go"), filepath.Join(root, pkgDir+"shrink.go")
+	if err := os.WriteFile(shrinkCo, []byte(shrinkShort), 0o644); err != nil {
+		rs.infraProblem(err.Error())
+		return nil
+	}
+	if r := run(); r != nil {
+		return mk("regenerate-run", "cogen failed after a co file was edited: "+normDiag(r.out))
+	}
+	over, _ := os.ReadFile(shrinkGo)
+	snap3 := snapshot(base)
+	for k, h := range snap3 {
+		if snap2[k] != h && !strings.HasSuffix(k, "shrink_co.go") && !strings.HasSuffix(k, "shrink.go") {
+			return mk("regenerate-touched-other", fmt.Sprintf("regeneration after editing shrink_co.go changed %s", k))
+		}
+	}
+	_ = os.Remove(shrinkGo)
+	if r := run(); r != nil {
+		return mk("regenerate-run", "cogen failed after the derived file was deleted: "+normDiag(r.out))
+	}
+	fresh, _ := os.ReadFile(shrinkGo)
+	if string(over) != string(fresh) {
+		return mk("regenerate-over-stale", fmt.Sprintf("the derived file written over an existing (longer) one differs from a fresh generation: %d bytes vs %d bytes; tail %q", len(over), len(fresh), firstN(string(over[min(len(over), len(fresh)):]), 120)))
+	}
+	if !strings.HasPrefix(string(fresh), genHeader) || strings.Contains(string(fresh), "ShrinkB") {
+		return mk("regenerate-content", "the regenerated derived file does not reflect the edited source: "+firstN(string(fresh), 200))
+	}
+	if r := runCmd(root, 10*time.Minute, nil, "go", "build", "./..."); r.code != 0 {
+		return mk("build-after-regenerate", "after regenerating an edited co file the module does not build: "+lastLines(r.out, 8))
+	}
 	return nil
 }
 
@@ -578,7 +618,7 @@ func init() {
 		rs.rule("package layouts in a scratch module processed by the repository's own cmd/cogen (GOFILE set, cwd = package dir): 1-3 *_co.go files, a *_co_test.go file, a plain sibling file providing a type used by a generator, " +
 			"a *_co.go file that imports the API blank / not at all, a sub-package with its own co files, nested package vs module root; generator programs from the control-flow/delegation profiles; the reference rendering " +
 			"lives in the layout as an ordinary file and the generated test asserts compiled == reference for every input; oracle: directory snapshot before/after (created set == exactly the derived files, nothing modified/left behind, " +
-			"no <dir>_tmp), '!co' header, go build / go test without the tag pass, go build -tags co passes, a second run leaves every byte identical; " +
+			"no <dir>_tmp), '!co' header, go build / go test without the tag pass, go build -tags co passes, a second run leaves every byte identical; then one co file is replaced by a much shorter version and the tool runs again over the existing longer derived file: the result must equal a fresh generation and no other file may change; " +
 			"non-trivial = >= 2 co files and a sibling type, test file or sub-package; distinct by hash(layout)")
 		n := rs.vol(10, 200)
 		var lays []c16Layout
